@@ -42,6 +42,8 @@ def load():
         base = os.path.splitext(os.path.basename(f))[0]
         mod = {"file": f, "crate": kv["crate"], "parent": kv["parent"], "modname": "kani_verif_" + base,
                "harnesses": []}
+        ca = re.search(r"^// @cbmc-args (.*)$", text, re.M)
+        mod["cbmc_args"] = ca.group(1).split() if ca else []
         pm = parent_to_modpath(kv["parent"])
         mod["modpath"] = (pm + "::" if pm else "") + mod["modname"]
         for hm in re.finditer(r"^// @h (.*)$", text, re.M):
@@ -53,7 +55,8 @@ def load():
                 raise ValueError("annotation for %s has no matching item in %s" % (name, f))
             ent = {"name": name, "props": h["props"].split(","), "tier": h.get("tier", "quick"),
                    "cap": int(h.get("cap", 0)) or None, "module": mod["modname"], "crate": kv["crate"],
-                   "fq": mod["modpath"] + "::" + name, "file": f}
+                   "fq": mod["modpath"] + "::" + name, "file": f,
+                   "cbmc_args": mod["cbmc_args"]}
             harnesses[name] = ent
             mod["harnesses"].append(name)
         modules.append(mod)
